@@ -31,6 +31,10 @@ theorem thread_count_restored :
 example : safe (.seq .getT (.seq .setT (.seq .mayRaise .restore))) = false := by decide
 example : safe (.seq .setT (.tryFin .mayRaise .restore)) = false := by decide
 example : safe (.seq .getT (.seq (.br .setT .skip) (.tryFin (.seq .mayRaise (.br .ret .raise_)) .restore))) = true := by decide
+/-- a nested call of another thread-limiting method of the same object INSIDE the limited region overwrites the shared
+saved value with the limited count: rejected; the same call after the `finally` is harmless -/
+example : safe (.seq .getT (.seq .setT (.tryFin (.seq .mayRaise .callT) .restore))) = false := by decide
+example : safe (.seq .getT (.seq .setT (.seq (.tryFin .mayRaise .restore) .callT))) = true := by decide
 /-- …and the relational semantics really contains the offending execution. -/
 example : Run (.seq .getT (.seq .setT (.seq .mayRaise .restore))) ⟨false, none⟩ .raised ⟨true, some false⟩ := by
   refine .seq_go _ _ _ ⟨false, some false⟩ _ _ (.get ⟨false, none⟩) ?_
